@@ -197,7 +197,8 @@ fn verif_spec_%s(t: usize, i: u32) -> Option<u32> {
     // the digamma pair lives outside the table: shift_text maps it iff char_mapping[2] == 0x1D6A8
     assert!((mapping[2] == 0x1D6A8) == %(dig)s, "digamma is mapped exactly in the styles whose Greek is the bold block");
 ''' % {'ident': ident, 'v': v, 'unch': ', '.join('true' if u else 'false' for u in unchanged), 'dig': 'true' if digamma_bold else 'false'},
-            'api': "set_mathml\\t<math><mi mathvariant='%s'>A B C H h 0 θ ϑ</mi></math>\\n" % v,
+            'api': "set_mathml\\t<math><mi mathvariant='%s'>{ch}</mi></math>\\n" % v,
+            'api_map': {'%d,%d' % k: c for k, c in by_index.items()},
         })
     nested = [('canonicalize.rs :: fn canonicalize_plane1 :: fn shift_text', '\n'.join(helpers))]
     canaries = [
